@@ -691,8 +691,32 @@ class Abs:
             child = par
             par = getattr(par, '_parent', None)
         defs = []
+        # the statement the use sits in, and the else-less branches around it
+        use_stmt = e
+        while use_stmt is not None and not isinstance(use_stmt, ast.stmt):
+            use_stmt = getattr(use_stmt, '_parent', None)
+        inside_ifs = set()
+        a_ = getattr(use_stmt, '_parent', None)
+        in_loop = False
+        while a_ is not None and a_ is not f:
+            if isinstance(a_, ast.If):
+                inside_ifs.add(id(a_))
+            if isinstance(a_, (ast.For, ast.While)):
+                in_loop = True
+            a_ = getattr(a_, '_parent', None)
+        shadow = self.__dict__.get('_shadow', {})
         for st in ast.walk(f):
-            if self._excluded(st):
+            if self._excluded(st) and not any(
+                    iid in inside_ifs and any(st is s_ for s_ in sh)
+                    for iid, sh in shadow.items()):
+                # (a default shadowed by a branch still reaches the uses
+                # inside that branch, before the override)
+                continue
+            if st is use_stmt and isinstance(st, ast.Assign) and \
+                    not in_loop and any(
+                        isinstance(t, ast.Name) and t.id == name
+                        for t in st.targets):
+                # "x = f(x)": the use reads the previous binding
                 continue
             if isinstance(st, ast.Assign):
                 for t in st.targets:
@@ -974,12 +998,37 @@ class Abs:
                     tv = e.func.value
                     if isinstance(tv, ast.Constant) and isinstance(
                             tv.value, str):
-                        segs = re.split(r'\{[^}]*\}', tv.value)
-                        for i, sg in enumerate(segs):
-                            if sg:
-                                parts.append(('const', sg))
-                            if i < len(ks):
-                                parts.append(('k', ks[i]))
+                        import string as _string
+                        kws = {k_.arg: self.kind(k_.value, m, f, env,
+                                                 depth + 1)
+                               for k_ in e.keywords if k_.arg}
+                        auto = 0
+                        try:
+                            fields = list(_string.Formatter().parse(tv.value))
+                        except ValueError:
+                            return ('unknown', 'malformed format template')
+                        for (lit, fname, spec, conv) in fields:
+                            if lit:
+                                parts.append(('const', lit))
+                            if fname is None:
+                                continue
+                            if fname == '':
+                                idx = auto
+                                auto += 1
+                            elif fname.isdigit():
+                                idx = int(fname)
+                            else:
+                                idx = None
+                            if idx is not None:
+                                if idx >= len(ks):
+                                    return ('unknown', 'format field '
+                                            'without argument')
+                                parts.append(('k', ks[idx]))
+                            elif fname in kws:
+                                parts.append(('k', kws[fname]))
+                            else:
+                                return ('unknown',
+                                        f'format field {{{fname}}}')
                         return self.concat(parts, e, m, f)
                     return ('unknown', 'format on non-constant template')
                 if a in ('lower', 'upper'):
